@@ -182,6 +182,23 @@ def run(prop, tier, seed):
         seen_ids.add(ident)
         V.violation(ident, "%s: implementation gives %s, the mathematical result is %s" % (sl, sa, show_orc(G.oracle(small))),
                     dict(case=sl, original_case=line, impl=sa, model=C.run_model([sl])[0], oracle=show_orc(G.oracle(small))))
+    # C07, second clause: a ? branch is taken iff the popped value is below the count, a ! branch iff it equals it —
+    # programs that build a value p/q (negative, NaN) and branch on it, run step by step on the real interpreter and
+    # on the L2 language definition
+    nbranch = 0
+    if prop == "C07":
+        from . import scripted as S
+        from . import execchecks as E
+        progs = [S.branch(rng) for _ in range(160 if tier == "quick" else 3000)]
+        a = C.run_impl([E.case_line("exec", "pre", 40, p, "") for p in progs])
+        b = C.run_model([E.case_line("spec", "pre", 40, p, "") for p in progs])
+        nbranch = len(progs)
+        for p, x, y in zip(progs, a, b):
+            hist["branch-program"] += 1
+            if x != y:
+                i, dx, dy = E.first_diff(x, y)
+                V.violation("branch:" + E.classify(x, y), "program %r: at command %d the interpreter has %s, the language definition gives %s"
+                            % (p, i + 1, dx, dy), dict(program=p, impl_trace=x, spec_trace=y))
     if corr_fail and not prop_fail:
         # correspondence broke but no property-level failure on these cases: search a fresh stratified batch
         extra = GENS[prop](random.Random(seed + 1), n, maxlen)
@@ -209,7 +226,7 @@ def run(prop, tier, seed):
         checker_cmd="make -C coq Props/%s.vo && coqc -Q coq HV coq/Props/%s.v (Print Assumptions) ; python3 tools/check.py --property %s --tier %s"
                     % (prop, prop, prop, tier),
         trusted_base=C.TRUSTED_BASE, axioms=pc["axioms"], proof_files=pc["files"],
-        evaluations=len(cases) * (3 if tier == "thorough" else 2), distinct_nontrivial=len(distinct),
+        evaluations=len(cases) * (3 if tier == "thorough" else 2) + 2 * nbranch, distinct_nontrivial=len(distinct),
         rule="expressions over the public BigNum/Num API generated from limb/sign/gcd strata (tools/hv/numgen.py); each is run on the "
              "real library (debug%s), on the extracted Coq model, and on Python int/Fraction; distinct = distinct wire lines; "
              "non-trivial = more than two limbs in total or a machine-integer constructor case" % (" and release" if tier == "thorough" else ""),
